@@ -14,7 +14,7 @@ CHECK = {
                   "A transfer that has not finished within 10 s is counted inconclusive.",
     "technique": "property-based testing (rapid) with fault injection on the transfer stream: per-key verdict predicate + end-to-end differential (queued element == accepted keys/contents)",
     "runs": [
-        {"name": "offer", "run": "^TestC09_", "checks": {"quick": 60, "thorough": 600}, "shards": {"quick": 6, "thorough": 16}},
+        {"name": "offer", "run": "^TestC09_", "checks": {"quick": 30, "thorough": 50}, "shards": {"quick": 6, "thorough": 16}, "rounds": {"quick": 2, "thorough": 6}},
     ],
     "rule": "rapid draws (version sets, key specs {seed, stored|unstored|inflight, content length 0..20000}, radius class max/zero/split-at-kth-key, slot limit, slots in use, "
             "queue capacity, queue full?, stream class, second offer?). Non-trivial = mixed verdicts, rate-limited reply, completed transfer compared, discarded wrong-count/undecodable "
